@@ -51,9 +51,13 @@ def rule_Q1(ctx):
         if kw == "INDEX" and len(gs) == 4:
             seps = [t[gs[i][2] + 1] for i in (1, 2)]
             ok = all(s == (sc.LITERAL, ord(":")) for s in seps) and all(len(g[1]) == 1 and g[1][0][0] is sc.MAX_REPEAT and g[1][0][1][0] == 1 for g in gs)
+            # a digit run of any length: a bounded run ({1,2}) makes a line with a longer number an unrecognised line
+            ok = ok and all(g[1][0][1][1] == sc.MAXREPEAT for g in gs)
             ctx.ob("Q1", node, "INDEX captures number and MM:SS:FF as digit runs", ok, pat, inst="INDEX:fields", file=CS, qualname="<module>")
         if kw == "TRACK" and len(gs) == 2:
             ok = gs[0][1][0][0] is sc.MAX_REPEAT and gs[1][1][0][0] is sc.MAX_REPEAT and gs[1][1][0][1][0] == 1
+            # the number and the mode word are runs of any length (TRACK 100 is a track line, not an unrecognised line)
+            ok = ok and len(gs[0][1]) == 1 and gs[0][1][0][1][0] == 1 and gs[0][1][0][1][1] == sc.MAXREPEAT and gs[1][1][0][1][1] == sc.MAXREPEAT
             neg, fl, touched = rx.class_items(gs[1][1][0][1][2][0][1]) if ok else (True, set(), set())
             ok = ok and not neg and rx.W in touched and rx.SL in touched
             ctx.ob("Q1", node, "TRACK captures the number and a mode word (letters, digits, '/')", ok, pat, inst="TRACK:fields", file=CS, qualname="<module>")
@@ -353,6 +357,16 @@ def rule_Q2(ctx):
                 n_skip += 1
                 if "CueSheetFileAdapter.parse" in names:
                     ok, det = False, "a non-FILE line is handed to the FILE parser"
+                # such a line is only consumed: apart from taking it off the list and trying regexes on it, the iteration does nothing
+                for s_ in pr.steps:
+                    st_ = s_.ast
+                    if s_.kind != "stmt" or st_ is None or isinstance(st_, (ast.Pass, ast.Continue)):
+                        continue
+                    v_ = getattr(st_, "value", None)
+                    fine = isinstance(st_, ast.Assign) and isinstance(v_, ast.Call) and (
+                        norm(v_.func) == "get_nonempty_entry" or (isinstance(v_.func, ast.Attribute) and v_.func.attr in ("match", "fullmatch", "search")))
+                    if not fine:
+                        ok, det = False, f"a line before FILE that is not a FILE line has an effect: `{norm(st_)[:80]}`"
         ok = ok and n_file >= 1 and n_skip >= 1
     ctx.ob("Q2", pc, "lines before the FILE line that are not FILE lines are skipped (REM, PERFORMER, ...); FILE lines go to the FILE parser", ok, "" if ok else det, inst="skip-before-file")
     prs = run_paths(ctx, pc, rule="Q2")
@@ -471,6 +485,11 @@ def rule_Q3(ctx):
     if ok:
         h = find_try_handler(calls[0], di, {"BadCueSheet"})
         ok = h is not None and all(isinstance(s, ast.Pass) for s in h.body)
+        if not ok and h is not None and not any(isinstance(n, (ast.Raise, ast.Return)) for st in h.body for n in ast.walk(st)):
+            # the handler only notes the outcome: every path through it goes on to the binary cascade
+            thr = [p for p in run_paths(ctx, di, include_exc=True, rule="Q3", limit=4000) if any(s_.kind == "except" and s_.ast is h for s_ in p.steps)]
+            ok = bool(thr) and all(p.end == "return" and any(norm(c.func) == "is_mdf_image" for c, e, st in calls_on(p)) for p in thr
+                                   if not any((c in ("truthy(0)",) and t) or (c in ("truthy(1)",) and not t) for c, t, _n in p.conds))
     ctx.ob("Q3", di, "text that is not a cue sheet (BadCueSheet) also falls back to the binary path", ok, "", inst="fallback-badcue")
 
 
@@ -736,6 +755,17 @@ def rule_C2(ctx):
         neg = False
         while isinstance(test, ast.UnaryOp) and isinstance(test.op, ast.Not):
             test, neg = test.operand, not neg
+        class _NE(ast.NodeTransformer):
+            # `not x == "lit"` is `x != "lit"` for strings
+            def visit_UnaryOp(self, node):
+                self.generic_visit(node)
+                o = node.operand
+                if isinstance(node.op, ast.Not) and isinstance(o, ast.Compare) and len(o.ops) == 1 and isinstance(o.ops[0], (ast.Eq, ast.NotEq)) \
+                        and any(isinstance(x, ast.Constant) and isinstance(x.value, str) for x in (o.left, o.comparators[0])):
+                    return ast.copy_location(ast.Compare(left=o.left, ops=[ast.NotEq() if isinstance(o.ops[0], ast.Eq) else ast.Eq()], comparators=o.comparators), node)
+                return node
+        import copy as _copy
+        test = ast.fix_missing_locations(_NE().visit(_copy.deepcopy(test)))
         t = canon_expr(fn, test)
         tr = f"{SHEET}.tracks"
         if t.endswith(" is not None"):
